@@ -1154,6 +1154,9 @@ class PlainQuantity(Generic[MagnitudeT], PrettyIPython, SharedRegistryObject):
         if not is_duck_array_type(type(self._magnitude)):
             return self.__pow__(other)
 
+        # raises ValueError for an exponent that belongs to another registry
+        self._check(other)
+
         try:
             _to_magnitude(other, self.force_ndarray, self.force_ndarray_like)
         except PintTypeError:
@@ -1215,6 +1218,9 @@ class PlainQuantity(Generic[MagnitudeT], PrettyIPython, SharedRegistryObject):
 
     @check_implemented
     def __pow__(self, other) -> PlainQuantity[MagnitudeT]:
+        # raises ValueError for an exponent that belongs to another registry
+        self._check(other)
+
         try:
             _to_magnitude(other, self.force_ndarray, self.force_ndarray_like)
         except PintTypeError:
@@ -1280,6 +1286,8 @@ class PlainQuantity(Generic[MagnitudeT], PrettyIPython, SharedRegistryObject):
 
     @check_implemented
     def __rpow__(self, other) -> PlainQuantity[MagnitudeT]:
+        self._check(other)
+
         try:
             _to_magnitude(other, self.force_ndarray, self.force_ndarray_like)
         except PintTypeError:
